@@ -1,10 +1,13 @@
 #!/bin/bash
-# usage: tools/seedtest.sh <Cxx> <patch.diff> [extra check args]   -- applies a seeded change to /repo, runs the check, reverts
-id=$1; patch=$2; shift 2
-cd /repo || exit 9
-if ! git diff --quiet; then echo "repo dirty"; exit 9; fi
-git apply "$patch" 2>/dev/null || git apply --3way "$patch" 2>/dev/null || { echo "PATCH DOES NOT APPLY"; git reset -q --hard HEAD; exit 8; }
-cd /verif; ./check $id "$@" 2>&1 | grep -E "^\[C|^VIOLATION|^ENGINE|^LOST|^UNDECIDED|^  obligation" | cut -c1-260 | head -${HEAD:-14}
+# usage: tools/seedtest.sh <Cxx> <patch.diff> [extra check args]
+# applies a seeded change to a scratch worktree of /repo's HEAD (outside /repo and /verif, removed afterwards), runs the check against it
+# (VERIF_REPO), prints the verdict lines.  /repo itself is never touched.
+id=$1; patch=$(readlink -f "$2"); shift 2
+WT=${SEEDWT:-/tmp/seedwt_$$}
+git -C /repo worktree add -q --detach "$WT" HEAD || exit 9
+cd "$WT"
+git apply "$patch" 2>/dev/null || git apply --3way "$patch" 2>/dev/null || { echo "PATCH DOES NOT APPLY"; cd /; git -C /repo worktree remove --force "$WT"; exit 8; }
+cd /verif; VERIF_REPO="$WT" ./check $id "$@" 2>&1 | grep -E "^\[C|^VIOLATION|^ENGINE|^LOST|^UNDECIDED|^  obligation" | cut -c1-260 | head -${HEAD:-14}
 rc=${PIPESTATUS[0]}
-git -C /repo reset -q --hard HEAD; git -C /repo status --short | head -3
+git -C /repo worktree remove --force "$WT"; git -C /repo worktree prune
 exit $rc
